@@ -111,3 +111,49 @@ pub uninterp spec fn sha256_hex(b: Seq<u8>) -> Seq<char>;
 /// ASSUMED: no SHA-256 collision between two inputs this program ever compares
 pub broadcast axiom fn sha256_injective(a: Seq<u8>, b: Seq<u8>)
     ensures #[trigger] sha256_hex(a) == #[trigger] sha256_hex(b) ==> a == b;
+
+// ---- indexmap::IndexSet<PathBuf> (insertion-ordered set), by the ids of the paths it holds ------------
+/// stand-in: the elements in insertion order; `set_ids` is the set of files they denote
+pub struct IndexSet<T> { pub v: Vec<T> }
+pub uninterp spec fn set_ids(s: &IndexSet<PathBuf>) -> Set<int>;
+impl IndexSet<PathBuf> {
+    #[verifier::external_body]
+    pub fn insert(&mut self, p: PathBuf) -> (r: bool)
+        ensures set_ids(final(self)) == set_ids(old(self)).insert(pathbuf_id(&p))
+    { unimplemented!() }
+    #[verifier::external_body]
+    pub fn is_empty(&self) -> (r: bool) ensures r == (set_ids(self) =~= Set::<int>::empty()) { unimplemented!() }
+    /// `for o in &index_set` is `for o in index_set.iter()` (indexmap's IntoIterator for &IndexSet)
+    pub fn iter(&self) -> (r: std::slice::Iter<'_, PathBuf>) { self.v.iter() }
+}
+impl Default for IndexSet<PathBuf> {
+    /// indexmap: the default set is empty
+    #[verifier::external_body] fn default() -> (r: Self) ensures set_ids(&r) =~= Set::<int>::empty() { unimplemented!() }
+}
+
+// ---- diagnostics plumbing of AppWriter::verify (values are irrelevant to C10; only Ok/Err is) ---------------
+#[verifier::external_body] pub struct MietteError { _p: u8 }
+#[verifier::external_body] pub struct CompilerDiagnostic { _p: u8 }
+#[verifier::external_body] pub struct CompilerDiagnosticBuilder { _p: u8 }
+impl CompilerDiagnostic { #[verifier::external_body] pub fn builder(e: AnyhowError) -> (r: CompilerDiagnosticBuilder) { unimplemented!() } }
+impl CompilerDiagnosticBuilder {
+    #[verifier::external_body] pub fn help(self, s: String) -> (r: Self) { unimplemented!() }
+    #[verifier::external_body] pub fn build(self) -> (r: CompilerDiagnostic) { unimplemented!() }
+}
+impl From<CompilerDiagnostic> for MietteError { #[verifier::external_body] fn from(d: CompilerDiagnostic) -> (r: Self) { unimplemented!() } }
+/// `anyhow::anyhow!("`{}` is not up-to-date.", o.display())`
+#[verifier::external_body] pub fn anyhow_outdated(p: &PathBuf) -> (r: AnyhowError) { unimplemented!() }
+#[verifier::external_body] pub fn help_text() -> (r: String) { unimplemented!() }
+
+// ---- AppDiagnostics::persist_flat: Vec<u8> as std::io::Write ------------------------------------------
+pub trait WriteAll { fn write_all(&mut self, b: &[u8]) -> (r: Result<(), IoError>); }
+impl WriteAll for Vec<u8> {
+    /// std: `impl Write for Vec<u8>` appends and never fails
+    #[verifier::external_body]
+    fn write_all(&mut self, b: &[u8]) -> (r: Result<(), IoError>)
+        ensures r is Ok, final(self)@ == old(self)@ + b@
+    { unimplemented!() }
+}
+/// UTF-8 bytes of a string (uninterpreted)
+pub uninterp spec fn utf8(s: Seq<char>) -> Seq<u8>;
+pub assume_specification[String::as_bytes](s: &String) -> (r: &[u8]) ensures r@ == utf8(s@);
